@@ -23,11 +23,16 @@ class Scratch:
             f.write('\n[net]\noffline = true\n')
         self.injected = []
 
-    def inject(self, rel_file, harness_file, modname):
-        """Append one line to rel_file that mounts the harness file as a child module."""
+    def inject(self, rel_file, harness_file, modname, extra_cfg=None):
+        """Append one line to rel_file that mounts the harness file as a child module.
+        extra_cfg: additional cfg predicate (e.g. `not(feature = "std")`) for harness files that only compile in
+        one feature configuration."""
         path = os.path.join(self.dir, rel_file)
-        line = '\n#[cfg(any(kani, dashu_verif_replay))] #[path = "%s"] mod %s;\n' % (
-            os.path.join(HARNESS_DIR, harness_file), modname)
+        cfg = 'any(kani, dashu_verif_replay)'
+        if extra_cfg:
+            cfg = 'all(%s, %s)' % (cfg, extra_cfg)
+        line = '\n#[cfg(%s)] #[path = "%s"] mod %s;\n' % (
+            cfg, os.path.join(HARNESS_DIR, harness_file), modname)
         with open(path, 'a') as f:
             f.write(line)
         self.injected.append((rel_file, harness_file))
@@ -65,15 +70,21 @@ def run_kani(scratch, package, harnesses, rustflags='--cfg force_bits="64"', tim
     env['RUSTFLAGS'] = rustflags
     env['CARGO_TARGET_DIR'] = os.path.join(scratch.dir, 'target')
     t0 = time.time()
+    # own process group: on timeout only OUR cargo/kani/cbmc processes are killed
+    proc = subprocess.Popen(cmd, cwd=scratch.dir, env=env, stdout=subprocess.PIPE, stderr=subprocess.STDOUT,
+                            text=True, start_new_session=True)
     try:
-        p = subprocess.run(cmd, cwd=scratch.dir, env=env, stdout=subprocess.PIPE, stderr=subprocess.STDOUT,
-                           text=True, timeout=timeout)
-        out = p.stdout
-        rc = p.returncode
-    except subprocess.TimeoutExpired as e:
-        out = (e.stdout or '') if isinstance(e.stdout, str) else (e.stdout or b'').decode('utf8', 'replace')
+        out, _ = proc.communicate(timeout=timeout)
+        rc = proc.returncode
+    except subprocess.TimeoutExpired:
+        import signal
+        try:
+            os.killpg(proc.pid, signal.SIGKILL)
+        except OSError:
+            pass
+        out, _ = proc.communicate()
+        out = out or ''
         rc = -9
-        subprocess.run(['pkill', '-9', 'cbmc'])
     wall = time.time() - t0
     res = parse_kani_output(out, harnesses)
     return {'cmd': ' '.join(cmd), 'rustflags': rustflags, 'wall_s': wall, 'returncode': rc, 'raw': out,
